@@ -5,9 +5,13 @@ package main
 // functions it calls.  Emitted as coq/Gen/Footprint.v for the C20 obligation.
 
 import (
+	"bytes"
+	"crypto/sha256"
+	"encoding/json"
 	"fmt"
 	"go/ast"
 	"go/parser"
+	"go/printer"
 	"go/token"
 	"os"
 	"path/filepath"
@@ -291,6 +295,45 @@ func writeFootprint(root, path string) {
 	}
 	sb.WriteString("Definition footprint : list foot := [\n" + strings.Join(all, ";\n") + "].\n")
 	if err := os.WriteFile(path, []byte(sb.String()), 0o644); err != nil {
+		panic(err)
+	}
+}
+
+// digests of the text of every function of codec/ (comments and formatting excluded): lets the orchestrator notice
+// that hand-modelled code changed since the model was reviewed and search deeper (it is NOT an obligation)
+func writeDigests(root, path string) {
+	dir := filepath.Join(root, "codec")
+	ents, err := os.ReadDir(dir)
+	if err != nil {
+		panic(err)
+	}
+	out := map[string]string{}
+	for _, e := range ents {
+		n := e.Name()
+		if !strings.HasSuffix(n, ".go") || strings.HasSuffix(n, "_test.go") {
+			continue
+		}
+		f, err := parser.ParseFile(fset, filepath.Join(dir, n), nil, 0)
+		if err != nil {
+			panic(terr{token.NoPos, err.Error()})
+		}
+		for _, d := range f.Decls {
+			fd, ok := d.(*ast.FuncDecl)
+			if !ok {
+				continue
+			}
+			name := fd.Name.Name
+			if fd.Recv != nil {
+				_, rt, _ := recvOf(fd)
+				name = rt + "." + name
+			}
+			var b bytes.Buffer
+			printer.Fprint(&b, token.NewFileSet(), fd)
+			out[name] = fmt.Sprintf("%x", sha256.Sum256(b.Bytes()))
+		}
+	}
+	js, _ := json.MarshalIndent(out, "", " ")
+	if err := os.WriteFile(path, js, 0o644); err != nil {
 		panic(err)
 	}
 }
